@@ -1830,6 +1830,23 @@ pub fn gen_case(rng: &mut Rng, tier: &str, profile: &str, stats: &mut Stats) -> 
         let x = rng.range(1, n);
         let y = other(rng, x);
         let m = rng.range(34, 44);
+        if rng.chance(1, 2) {
+            // variant: the session exists already; the requests arrive one by one and are held by the
+            // peer's application, which then answers all of them at once
+            ops.push(format!("hreq {} {} enr {} 1", x, y, rid)); rid += 1;
+            ops.push("hdel next".into());
+            ops.push(format!("hwru {} next known", y));
+            for _ in 0..2 { ops.push("hdel next".into()); }
+            ops.push(format!("hresp {} next auto", y));
+            ops.push("hdel next".into());
+            for _ in 0..m {
+                ops.push(format!("hreq {} {} enr {} {}", x, y, rid, if profile == "C20" { 4 } else { rng.range(1, 4) })); rid += 1;
+                ops.push("hdel next".into());
+            }
+            ops.push(format!("hrespall {}", y));
+            for _ in 0..m { ops.push("hdel next".into()); }
+            emitted += 2 * m + 5;
+        } else {
         for _ in 0..m {
             ops.push(format!("hreq {} {} enr {} {}", x, y, rid, if profile == "C20" { 4 } else { rng.range(1, 4) })); rid += 1;
         }
@@ -1843,6 +1860,7 @@ pub fn gen_case(rng: &mut Rng, tier: &str, profile: &str, stats: &mut Stats) -> 
             for _ in 0..m { ops.push("hdel next".into()); }
         }
         emitted += 2 * m + 3;
+        }
     }
     if profile == "C02" && n == 3 && !dual_redirect && rng.chance(1, 5) {
         // directed prefix: a node waits for answers from two peers; one of them answers with the
